@@ -223,7 +223,7 @@ def run_shard(sh):
             wk = rng.random() < 0.3
             hist = [rng.choice(EVENTS) for _ in range(rng.randint(3, 12))]
             CUR['peer'] = rng.choice(PEERS)
-            CUR['step'] = rng.choice([[1.0], [1.0], [0.05, 0.25, 0.3, 1.0], [0.011, 0.09, 0.4], [0.000001, 0.5, 3.0]])
+            CUR['step'] = rng.choice([[1.0], [1.0], [0.05, 0.25, 0.3, 1.0], [0.011, 0.09, 0.4], [0.000001, 0.5, 3.0], [0.0, 0.0, 0.0, 1.0], [0.0]])   # 0.0: a burst handled within one clock reading
             rep = dict(history=hist, max_size=max_size, write_keepalive=wk, seed=sh['seed'], hi=hi, peer=CUR['peer'], steps=CUR['step'])
             peer = FakePeer()
             reactor.reset()
@@ -256,7 +256,11 @@ def run_shard(sh):
                 # ---------------- crash points after this event
                 res['evaluations'] += 1
                 cps = [('clean', None)]
-                newest = sorted(glob.glob(os.path.join(root, pdir(), 'msg', '*.msg')))[-1]
+                files_now = sorted(glob.glob(os.path.join(root, pdir(), 'msg', '*.msg')))
+                if not files_now:
+                    bad('no-log-file', feats, 'no log file exists in %s after event %d %s' % (os.path.join(pdir(), 'msg'), k, ev), rep)
+                    break
+                newest = files_now[-1]
                 size = os.path.getsize(newest)
                 with open(newest, 'rb') as fh:
                     data = fh.read()
@@ -334,7 +338,7 @@ def run_chain(sh, res):
             root = os.path.join(base, 'c%d' % ci)
             os.makedirs(root)
             CUR['peer'] = rng.choice(PEERS)
-            CUR['step'] = rng.choice([[1.0], [0.05, 0.25, 0.3, 1.0], [0.000001, 0.5, 3.0]])
+            CUR['step'] = rng.choice([[1.0], [0.05, 0.25, 0.3, 1.0], [0.000001, 0.5, 3.0], [0.0, 0.0, 1.0]])
             max_size = rng.choice([300, 600, 1500, 10 ** 9])
             wk = rng.random() < 0.3
             peer = FakePeer()
